@@ -320,14 +320,12 @@ func (s *parallelSolverImpl) Solve(
 
 						solution := bestSolution.Copy()
 
+						solutionsMutex.Lock()
 						if len(solutions) > 0 {
-							solutionsMutex.Lock()
-							if len(solutions) > 0 {
-								solution = solutions[len(solutions)-1]
-								solutions = solutions[:len(solutions)-1]
-							}
-							solutionsMutex.Unlock()
+							solution = solutions[len(solutions)-1]
+							solutions = solutions[:len(solutions)-1]
 						}
+						solutionsMutex.Unlock()
 
 						cycle := (r-1)/parallelRuns + 1
 
